@@ -23,7 +23,7 @@ Definition part := (Z * list Z)%type.               (* (oid, canonical contents)
 (* shape: 0 scalar, 1 list, 2 dict, 3 set, 4 tuple (tuple object, inner list, scalar),
    5 a TraitListObject, 6 a TraitDictObject (they and the set fire the "<name>_items" event when mutated;
    1 / 2 are a plain Python list / dict), 7 a tuple of two TraitListObjects (tuple object, first list,
-   second list), 9 error *)
+   second list), 8 a numpy array, 9 error *)
 Record value := mkV { v_shape : Z; v_parts : list part }.
 
 (* ---- trait definitions ---- *)
@@ -40,6 +40,7 @@ Inductive kind :=
 | KUnion       (* CALLABLE_DEFAULT_VALUE: Union(List(Int), Int): Union._get_default_value *)
 | KEvent       (* "<name>_items" / trait_added event traits (never read) *)
 | KTuple2      (* CALLABLE_DEFAULT_VALUE: Tuple(List(Int, content), List(Int, [scalar])): two container members *)
+| KArray       (* CALLABLE_AND_ARGS_DEFAULT_VALUE: Array(dtype=float, shape=(k,), value=[..]): copy_default_value *)
 | KMethodInt.  (* CALLABLE_DEFAULT_VALUE: Int with a _name_default method returning an int: counted, validated *)
 
 Record tdef := mkT {
@@ -82,6 +83,7 @@ Inductive op :=
 | Mutate (i n x : Z)                               (* getattr(obj_i, n), then append / set / add x in place *)
 | Register (i n hid : Z) (via_observe : bool)      (* obj_i.on_trait_change(h, n) / obj_i.observe(h, n) *)
 | AddTrait (i n : Z) (t : tdef)                    (* obj_i.add_trait(n, Int(c)) / List(Int, [..]) *)
+| Delete (i n : Z)                                 (* del obj_i.n  (reset_traits([n])) *)
 | SetMeta (i n code : Z)                           (* obj_i.trait(n).label = code, n a trait added to this instance *)
 | AssignFrom (i n src : Z)                         (* setattr(obj_i, n, the value object stored in obj_src.__dict__[n]) *)
 | Introspect (i mode : Z)                          (* obj_i.copyable_trait_names() / traits(k=v) / trait_names(k=v) / traits() *)
@@ -95,6 +97,7 @@ Fixpoint aset {A} (k : Z) (a : A) (l : list (Z * A)) : list (Z * A) :=
   | [] => [(k, a)]
   | (k', a') :: r => if k =? k' then (k, a) :: r else (k', a') :: aset k a r
   end.
+Definition aremove {A} (k : Z) (l : list (Z * A)) : list (Z * A) := filter (fun p => negb (k =? fst p)) l.
 Fixpoint update_nth {A} (n : nat) (f : A -> A) (l : list A) : list A :=
   match l, n with
   | [], _ => []
@@ -131,6 +134,7 @@ Definition default_value (t : tdef) (next : Z) : value * Z :=
   | KTraitDict => (mkV 6 [(next, t_content t)], next + 1)
   | KTraitSet => (mkV 3 [(next, t_content t)], next + 1)
   | KTuple => (mkV 4 [(next, []); (next + 1, t_content t); (0, [t_scalar t])], next + 2)
+  | KArray => (mkV 8 [(next, t_content t)], next + 1)                (* a fresh copy of the class-level array *)
   | KTuple2 => (mkV 7 [(next, []); (next + 1, t_content t); (next + 2, [t_scalar t])], next + 3)
   | KEvent => (mkV 9 [], next)
   end.
@@ -157,6 +161,7 @@ Definition mutate_value (v : value) (x : Z) : value :=
   | 6, (o, c) :: r => mkV 6 ((o, c ++ [x; x]) :: r)
   | 3, (o, c) :: r => mkV 3 ((o, insert_sorted x c) :: r)              (* s.add(x) *)
   | 4, p :: (o, c) :: r => mkV 4 (p :: (o, c ++ [x]) :: r)             (* t[0].append(x) *)
+  | 8, (o, c) :: r => mkV 8 ((o, x :: tl c) :: r)                      (* a[0] = x *)
   | 7, p :: q :: (o, c) :: r => mkV 7 (p :: q :: (o, c ++ [x]) :: r)   (* t[1].append(x): the second member *)
   | _, _ => v
   end.
@@ -273,6 +278,36 @@ Section Step.
             end
         end.
 
+  (* setattr_trait with value == NULL (l.2390-2440): remove the stored value; with listeners the value the attribute
+     reverts to is obtained through getattr — computed, STORED, counted again (the counters count runs since the
+     attribute last became unassigned) — and the change old -> default is reported like an assignment *)
+  Definition delete_inst (ins : inst) (n : Z) : inst * value * Z :=
+    match alookup n (i_dict ins) with
+    | None => (ins, mkV 0 [], w_next w)                    (* nothing stored: return 0 *)
+    | Some ov =>
+        let ins1 := mkI (i_cls ins) (aremove n (i_dict ins)) (i_itraits ins) (aremove n (i_calls ins)) (i_log ins)
+                        (i_regs ins) in
+        match resolve ins n with
+        | None => (ins1, mkV 0 [], w_next w)
+        | Some t =>
+            match hids ins t n with
+            | [] => (ins1, mkV 0 [], w_next w)               (* no listeners: the default is not computed *)
+            | hs =>
+                let '(ins2, v, next') := materialise ins1 n t in
+                let same := (shape_class (v_shape ov) =? shape_class (v_shape v))
+                            && zlist_eqb (vcontent ov) (vcontent v) in
+                let called := if t_cmp t =? 0 then true else negb ((v_shape v =? 0) && same) in
+                let filtered := if t_cmp t =? 2 then same else false in
+                (mkI (i_cls ins2) (i_dict ins2)
+                     (if called then ensure_itrait ins2 n t else i_itraits ins2)
+                     (i_calls ins2)
+                     (i_log ins2 ++ (if called then notify hs n (Some (vcontent ov)) filtered (vcontent v) else []))
+                     (i_regs ins2),
+                 mkV 0 [], next')
+            end
+        end
+    end.
+
   (* the payload that rebuilds a value of the same contents *)
   Definition payload_of (v : value) : list Z * Z :=
     match v_shape v, v_parts v with
@@ -303,6 +338,7 @@ Section Step.
                     else (ins, error_value, w_next w)
         | None => (ins, error_value, w_next w)
         end
+    | Delete _ n => delete_inst ins n
     | SetMeta _ n code =>
         (* a trait added with add_trait owns its metadata dict (_clone_trait copies it): only this instance sees it *)
         match alookup n (i_itraits ins), alookup n (class_of ins) with
@@ -401,7 +437,7 @@ Section Step.
   Definition target (o : op) : Z :=
     match o with
     | Read i _ | Assign i _ _ _ | Mutate i _ _ | Register i _ _ _ | AddTrait i _ _ | Introspect i _
-    | SetMeta i _ _ | AssignFrom i _ _ => i
+    | SetMeta i _ _ | AssignFrom i _ _ | Delete i _ => i
     | NewInst _ => Z.of_nat (length (w_insts w))
     end.
 End Step.
@@ -421,7 +457,7 @@ Definition wild_range (n : Z) : bool := (60 <=? n) && (n <? 70).
 (* the attribute name an operation resolves (getattr, setattr, _trait(name, 2)); observe() needs a defined trait *)
 Definition op_name (o : op) : option Z :=
   match o with
-  | Read _ n | Assign _ n _ _ | Mutate _ n _ => Some n
+  | Read _ n | Assign _ n _ _ | Mutate _ n _ | Delete _ n => Some n
   | Register _ n _ via => if via then None else if n =? any_name then None else Some n
   | _ => None
   end.
